@@ -1,0 +1,10 @@
+//go:build verif
+
+package snowflake_client
+
+// Machine-checked contracts (read by /verif/engine; comment-only, compiled only with -tags verif).
+//
+// ---- guarded-by declarations (C20) ----
+//@ guarded WebRTCPeer.lastReceive by mu
+//@ guarded Peers.activePeers by collectLock
+//@ guarded BrokerChannel.natType by lock
